@@ -111,8 +111,10 @@ func concurrent(run *ev.Run) {
 			names = append(names, strings.Join(ops, ";"))
 		}
 		desc := "concurrent: " + sc.name + ": " + strings.Join(names, " || ")
+		// wall-clock share of this scenario (all bounds): what does not finish inside it is reported as capped
+		deadline := run.DeadlineIn(time.Duration(run.Pick(60, 240)) * time.Second)
 		for b := 0; b <= bound; b++ {
-			st := vsched.Explore(vsched.Config{Name: sc.name, Bound: b, Stall: 120 * time.Second, MaxExec: run.Pick(3000, 60000)}, concBody(sc))
+			st := vsched.Explore(vsched.Config{Name: sc.name, Bound: b, Stall: 120 * time.Second, MaxExec: run.Pick(3000, 60000), Deadline: deadline}, concBody(sc))
 			if st.Infra != "" {
 				if st.StallReproduced {
 					run.Violation("call-never-returns-under-schedule", fmt.Sprintf("%s: the same schedule stalled three times: %s", sc.name, st.Infra), map[string]interface{}{"scenario": sc.name, "schedule": st.StallSchedule})
